@@ -138,6 +138,10 @@ def c13(proj, rep, tier):
 
 
 def c07(proj, rep, tier):
+    n = circuit.u1(proj, rep)
+    rep.floor('U1 to_unitary (exported circuit)', n, 2)
+    n = round3b.dtype1_h7b_gr7_e4b(proj, rep, {'H7B'})
+    rep.floor('H7B register size of Circuit from every index slot', n, 1)
     n = typestate.h1(proj, rep, ['numqi.sim.clifford.CliffordCircuit', 'numqi.gate._pauli.PauliOperator'],
                      require_memo=['numqi.sim.clifford.CliffordCircuit'])
     rep.floor('H1 mutators of a memoised source (CliffordCircuit recorders)', n, 1)
@@ -210,6 +214,8 @@ def c01(proj, rep, tier):
     ncls, narms = manifold.w1(proj, rep)
     rep.floor('W1 manifold classes with a functional twin', ncls, 9)
     rep.floor('W1 delegation arms', narms, 19)
+    n = kdefects.dt1(proj, rep, [q for q in sorted(proj.modules) if q.startswith('numqi.manifold')])
+    rep.floor('DT1 manifold buffers typed after the parameter vector', n, 1)
     n = manifold.w2(proj, rep)
     rep.floor('W2 classes with a method option', n, 6)
     n3, n4 = manifold.w3(proj, rep)
@@ -260,6 +266,8 @@ def c02(proj, rep, tier):
     n = round3b.w8(proj, rep, MANIFOLD if tier == 'quick' else None)
     rep.floor('W8 forward trivialization maps scanned for saturating functions', n, 25)
     round3b.dt7(proj, rep, MANIFOLD if tier == 'quick' else None)
+    n = kdefects.dt1(proj, rep, [q for q in sorted(proj.modules) if q.startswith('numqi.manifold')])
+    rep.floor('DT1 manifold buffers typed after the parameter vector', n, 1)
     n10, n11 = round3b.w10_w11(proj, rep)
     rep.floor('W10 power sites of the Cayley chart', n10, 2)
     rep.floor('W11 triu / tril splits of a parameter matrix', n11, 2)
@@ -461,6 +469,8 @@ def c03(proj, rep, tier):
 
 
 def c04(proj, rep, tier):
+    n = round3b.a13(proj, rep, None)
+    rep.floor('A13 custom backward functions scanned for in-place writes into saved tensors', n, 5)
     n = adjoint.a4_a5(proj, rep)
     rep.floor('A4 autograd.Function classes', n, 5)
     n = adjoint.a2_grad_helpers(proj, rep)
@@ -579,6 +589,8 @@ def c11(proj, rep, tier):
     rep.floor('M3(g) tolerance obligation of measure_quantum_vector', n, 1)
     n = round3b.q8_un1_d4b_chk1(proj, rep, {'D4B'})
     rep.floor('D4B arguments of the measurement call in MeasureGate.forward', n, 1)
+    n = round3b.m4(proj, rep)
+    rep.floor('M4 item stores into the collapsed buffer', n, 1)
     n = round3b.gi1(proj, rep)
     rep.floor('GI1 per-position gate/index entries in tables built over enumerate(gate_index_list)', n, 6)
     n = round3b.tr1(proj, rep, ['numqi.sim'] if tier == 'quick' else None)
@@ -797,6 +809,7 @@ def with_mc3(pid, f):
         round3b.dtf1(proj, rep, MC3_SCOPE[pid] if tier == 'quick' else None)
         round3b.cast1(proj, rep, MC3_SCOPE[pid] if tier == 'quick' else None)
         round3b.cj1(proj, rep, MC3_SCOPE[pid] if tier == 'quick' else None)
+        round3b.bt1_out2_rk1(proj, rep, ['BT1', 'OUT2', 'RK1'], MC3_SCOPE[pid] if tier == 'quick' else None)
         ns = round3b.self1(proj, rep, MC3_SCOPE[pid] if tier == 'quick' else None)
         if tier != 'quick':
             rep.floor('SELF1 sites scanned in the package', ns, 1500)
